@@ -21,6 +21,9 @@ the master has to SIGKILL the worker.
 
 Run:  cd /tmp/wa_C04 && PYTHONPATH=/tmp/wa_C04 /venv/bin/python _finding/2/demo.py
 """
+import os as _os
+_TREE_UNDER_TEST = _os.environ.get("GVERIF_REPO") or _os.getcwd()   # the checkout under test (was the auditing agent's scratch worktree)
+
 import importlib.util
 import os
 import re
@@ -31,7 +34,7 @@ import sys
 import tempfile
 import time
 
-ROOT = "/tmp/wa_C04"
+ROOT = _TREE_UNDER_TEST
 sys.path.insert(0, ROOT)
 
 GRACEFUL = 4        # graceful timeout given to gunicorn (seconds)
